@@ -49,6 +49,7 @@ type Workload struct {
 	Filter  bool      `json:"filtering_togglers,omitempty"`
 	Trigger bool      `json:"trigger_writer,omitempty"` // the destination sits behind a *TriggerLevelWriter that lets everything through (its own mutex covers WriteLevel only)
 	Plain   int       `json:"plain_writers,omitempty"`  // with SyncWriter: goroutines that use the writer as a plain io.Writer (the standard library logger), 3 lines each
+	Double  bool      `json:"double_sync,omitempty"`    // with SyncWriter: some loggers write through SyncWriter(dst), the others through SyncWriter(SyncWriter(dst)), the same inner wrapper
 	Closer  bool      `json:"closer,omitempty"`         // with SyncWriter: another goroutine calls Close on it meanwhile (as Logger.Fatal or a shutdown path would); Close is a call on the wrapped writer too
 	Console bool      `json:"console_writer,omitempty"` // a ConsoleWriter sits between the logger and the destination
 	ConsNew bool      `json:"console_new,omitempty"`    // ... built by NewConsoleWriter with FieldsOrder and FieldsExclude (fresh per run: every goroutine's first Write races the others')
@@ -135,7 +136,7 @@ func (discardDebug) Run(e *zerolog.Event, l zerolog.Level, m string) {
 	}
 }
 
-func loggers(w *checkWriter, syncW bool) []*zerolog.Logger {
+func loggers(w *checkWriter, syncW bool, double ...bool) []*zerolog.Logger {
 	var out zerolog.Logger
 	var dst io.Writer = w
 	if w.console {
@@ -180,6 +181,12 @@ func loggers(w *checkWriter, syncW bool) []*zerolog.Logger {
 	// context fields and on one that has some; built while nothing else is going on
 	l7 := l0.With().Object("big", bigObj(12)).Logger()
 	l8 := l1.With().EmbedObject(bigObj(100)).Object("again", bigObj(12)).Logger()
+	if syncW && len(double) > 0 && double[0] {
+		// a component that was handed the synchronised writer and wraps it once more to be safe: whichever
+		// wrapper a call comes through, the destination still sees one call at a time
+		outer := zerolog.SyncWriter(lastSync)
+		l3, l5, l7 = l3.Output(outer), l5.Output(outer), l7.Output(outer)
+	}
 	return []*zerolog.Logger{&l0, &l1, &l2, &l3, &l4, &l5, &l6, &l7, &l8}
 }
 
@@ -241,7 +248,7 @@ func run(wl *Workload) (msg string, nontrivial bool) {
 	}
 	// concurrent
 	w := &checkWriter{mode: wl.Writer, gate: make(chan struct{}), console: wl.Console, consNew: wl.ConsNew, trigger: wl.Trigger}
-	ls := loggers(w, wl.Sync)
+	ls := loggers(w, wl.Sync, wl.Double)
 	zlog.Logger = *ls[3]
 	var wg sync.WaitGroup
 	start := make(chan struct{})
@@ -389,6 +396,7 @@ func genWorkload(rt *rapid.T, maxG int) *Workload {
 		Console: rapid.IntRange(0, 3).Draw(rt, "console") == 0}
 	wl.Filter = wl.Toggle && rapid.IntRange(0, 2).Draw(rt, "filter") == 0
 	wl.Closer = wl.Sync && rapid.Bool().Draw(rt, "closer")
+	wl.Double = wl.Sync && rapid.Bool().Draw(rt, "double")
 	wl.Trigger = !wl.Console && rapid.IntRange(0, 2).Draw(rt, "trigger") == 0
 	if wl.Sync && !wl.Console {
 		wl.Plain = rapid.IntRange(0, 2).Draw(rt, "plain")
